@@ -4,14 +4,16 @@
 patch="$1"; shift
 cd /repo || exit 2
 if ! git apply --check "$patch" 2>/dev/null; then echo "patch does not apply: $patch"; exit 2; fi
+stamp=$(mktemp)
 git apply "$patch"
 for id in "$@"; do
   out=$(cd /verif && ./check "$id" quick 2>&1)
   rc=$?
   line=$(echo "$out" | grep -m1 "^VIOLATION" )
-  sig=$(echo "$out" | grep -m1 "signature=" | cut -c1-160)
+  sig=$(echo "$out" | grep -v "^KNOWN" | grep -m1 "signature=" | cut -c1-160)
   if [ $rc -eq 1 ]; then echo "CAUGHT $id rc=$rc $sig"; elif [ $rc -eq 0 ]; then echo "MISSED $id"; else echo "INCONCLUSIVE $id rc=$rc $(echo "$out" | tail -2 | cut -c1-200)"; fi
 done
 git -C /repo checkout -- .
 # found-* replays written while the mutant was applied do not belong to the unchanged tree
-find /verif/replays -name 'found-*.json' -newer "$patch" -delete 2>/dev/null
+for id in "$@"; do find /verif/replays/$id -name 'found-*.json' -newer "$stamp" -delete 2>/dev/null; done
+rm -f "$stamp"
